@@ -134,6 +134,51 @@ pub fn main(a: &Args) -> i32 {
         summary.push(json!({"trial": t, "max": max, "block": block, "events": n}));
     }
     crate::trace::write_ndjson(std::path::Path::new(&out), &lines).unwrap();
-    print_summary(&json!({"scenario": "limstress", "trace": out, "trials": summary}));
+    let budget = budget_sweep();
+    print_summary(&json!({"scenario": "limstress", "trace": out, "trials": summary, "budget_sweep": budget}));
     0
+}
+
+/// ReturnError mode decides at once: a request either enters the wrapped service or is refused,
+/// it never waits. Two requests of one peer compete for the single slot while the task issuing
+/// the first has spent k units of its cooperative-scheduling budget (tokio makes a task yield at
+/// its next resource operation once 128 are spent - an await point where none is expected).
+/// For every k in 0..=300: one request is inside, the other has been refused.
+fn budget_sweep() -> Value {
+    let rt = tokio::runtime::Builder::new_current_thread().enable_all().build().unwrap();
+    let mut bad = Vec::new();
+    let mut evals = 0u64;
+    for k in 0..=300u32 {
+        evals += 1;
+        let seq = Arc::new(AtomicU64::new(1));
+        let log: Arc<Mutex<Vec<Value>>> = Default::default();
+        let inner = Inner { seq, log: log.clone(), hold_us: 50_000 };
+        let svc = InflightLimitLayer::new(1, WaitMode::ReturnError).layer(inner);
+        let id = PeerId([k as u8; 32]);
+        let (done1, done2, inside) = rt.block_on(async {
+            let mut s1 = svc.clone();
+            let t1 = tokio::spawn(async move {
+                for _ in 0..k {
+                    tokio::task::consume_budget().await;
+                }
+                s1.call(Request::new(Bytes::new()).with_header("peer", "1").with_header("rid", "1").with_extension(id)).await.map(|_| ()).map_err(|e| e.status())
+            });
+            let mut s2 = svc.clone();
+            let t2 = tokio::spawn(async move {
+                s2.call(Request::new(Bytes::new()).with_header("peer", "1").with_header("rid", "2").with_extension(id)).await.map(|_| ()).map_err(|e| e.status())
+            });
+            // both have run as far as they can without the slot being released (held for 50 ms)
+            tokio::time::sleep(std::time::Duration::from_millis(10)).await;
+            let inside = log.lock().unwrap().iter().filter(|l| l["ev"] == "enter").count();
+            let (f1, f2) = (t1.is_finished(), t2.is_finished());
+            t1.abort();
+            t2.abort();
+            (f1, f2, inside)
+        });
+        // exactly one entered (and is still held, so its task is unfinished); the other finished (refused)
+        if inside != 1 || (done1 == done2) {
+            bad.push(json!({"k": k, "inside": inside, "first_finished": done1, "second_finished": done2}));
+        }
+    }
+    json!({"evaluations": evals, "bad": bad.into_iter().take(5).collect::<Vec<_>>()})
 }
